@@ -792,6 +792,8 @@ def subst_params(t, env):
         return ("bin", t[1], subst_params(t[2], env), subst_params(t[3], env))
     if k == "is":
         return ("is", subst_params(t[1], env), t[2])
+    if k == "iter":
+        return ("iter", subst_params(t[1], env), t[2])
     return tuple(subst_params(x, env) if isinstance(x, tuple) else x for x in t)
 
 
@@ -811,6 +813,8 @@ def show(t, names=None):
             return json.dumps(t[2])
         if t[1] == "fn":
             return "fn:" + t[2]
+        if t[1] == "char":
+            return "'%s'" % t[2]
         if t[1] == "unit":
             return "()"
         return str(t[2])
@@ -834,7 +838,12 @@ def show(t, names=None):
     if k == "obj":
         return "%s#%s" % (show(t[2], names), t[3][1] if t[3] else "")
     if k == "elem":
+        if t[1][0] == "iter":
+            n = names.get(("tag", t[1][2]))
+            return "%s[*#%s]" % (show(t[1][1], names), n if n is not None else "?")
         return show(t[1], names) + "[*]"
+    if k == "iter":
+        return show(t[1], names)
     if k == "enumelem":
         return "enum(%s)[*]" % show(t[1], names)
     if k == "enumerate":
@@ -866,6 +875,9 @@ def show(t, names=None):
     if k in ("phi", "rec") and ("phikey", t[1]) in names:
         return names[("phikey", t[1])]
     if k == "phi":
+        c = cursor_phi(t, names)
+        if c is not None:
+            return c
         c = compact_phi(t, names)
         if c is not None:
             return c
@@ -908,6 +920,40 @@ def _chain(t):
         t = t[1]
     steps.reverse()
     return t, steps
+
+
+def cursor_phi(t, names=None):
+    """loop cursor: base | rec.step | rec.step'  renders as the regular path  base(step|step')*"""
+    key = t[1]
+    leaves = []
+    st = list(t[2])
+    while st:
+        m = st.pop()
+        if m[0] == "phi" and m[1] != key:
+            st.extend(m[2])
+        else:
+            leaves.append(m)
+    bases, steps = [], []
+    ph = ("param", -78)
+    for m in leaves:
+        root, ch = _chain(m)
+        if root == ("rec", key):
+            if not ch:
+                continue
+            x = ph
+            for c in ch:
+                x = ("elem", x) if c[0] == "elem" else ("proj", x, c[1])
+            steps.append(show(x, {ph: ""}))
+        elif contains_kind(m, ("rec",)):
+            return None
+        else:
+            bases.append(show(m, names))
+    if not steps or not bases:
+        return None
+    bases = sorted(set(bases))
+    steps = sorted(set(steps))
+    b = bases[0] if len(bases) == 1 else "{%s}" % " | ".join(bases)
+    return "%s(%s)*" % (b, "|".join(steps))
 
 
 def compact_phi(t, names=None):
